@@ -567,6 +567,29 @@ func (e *specEnv) call(x *ast.CallExpr) specVal {
 			}
 			e.errf("visited(): loop is not a map range")
 		}
+	case "fieldaddr":
+		if need(2) {
+			v := arg(0)
+			id, ok := x.Args[1].(*ast.Ident)
+			pt, ok2 := v.typ.Underlying().(*types.Pointer)
+			if !ok || !ok2 {
+				e.errf("fieldaddr(ptr, FieldName)")
+				break
+			}
+			stt, ok3 := pt.Elem().Underlying().(*types.Struct)
+			if !ok3 {
+				e.errf("fieldaddr: not a struct pointer")
+				break
+			}
+			for i := 0; i < stt.NumFields(); i++ {
+				if stt.Field(i).Name() == id.Name {
+					fn := "fa_" + typeKey(pt.Elem()) + "_" + fmt.Sprint(i)
+					tr.eng.declareOnce(tr, fn, fmt.Sprintf("(declare-fun %s (Int) Int)", fn))
+					return specVal{app(fn, v.t), types.NewPointer(stt.Field(i).Type())}
+				}
+			}
+			e.errf("fieldaddr: no field %s", id.Name)
+		}
 	case "visitedCount":
 		if e.li == nil || e.li.visCountHead == "" {
 			e.errf("visitedCount() outside a map range loop invariant")
@@ -914,6 +937,24 @@ func (a *Act) atReturn(st *State, in *ssa.Return, results []Term) {
 }
 
 func (tr *Tr) wantClause(c *clause) bool {
+	// a clause tagged with property ids is proved (and, for invariants, used) only by those properties
+	var props []string
+	for _, t := range c.tags {
+		if strings.HasPrefix(t, "C") {
+			props = append(props, t)
+		}
+	}
+	if len(props) > 0 {
+		ok := false
+		for _, p := range props {
+			if p == tr.prop {
+				ok = true
+			}
+		}
+		if !ok {
+			return false
+		}
+	}
 	if tr.clauseFilter == nil {
 		return true
 	}
@@ -1057,6 +1098,8 @@ func (a *Act) frameForCall(st *State, fc *FuncContract, vars map[string]specVal,
 		cn := c.name
 		switch {
 		case c.local:
+			return prev
+		case strings.HasPrefix(cn, "ghost:lock") && !listed[cn]:
 			return prev
 		case preserved[cn] && len(c.keySorts) > 0:
 			return tr.heapFrame(prev, keepOld, "call_"+cn)
